@@ -92,6 +92,7 @@ opcodes! {
     ThinMutReplace = "thin_mut_replace", "C10";
     ThinMutNoop = "thin_mut_noop", "C10";
     UniWrite = "uni_write", "";
+    DeInPlace = "de_in_place", "C03 C17";
     // ---- uninit
     WriteSlot = "write_slot", "C15";
     AssumeInit = "assume_init", "C15";
